@@ -104,7 +104,7 @@ func main() {
 				"damaged_parameter_components": a.nMalformed, "arrival_prefix_and_requester_variants": a.nPrefix,
 				"unknown_or_odd_module_verb_names": a.nNames, "dataset_requests": a.nDatasets,
 				"verbs": len(verbs), "fields": int(nFields),
-				"mtu_domain": []string{"0", "1", "21", "22", "30", "127", "128", "1500", "8800", "8801", "2^63"},
+				"mtu_domain": []string{"0", "1", "21", "22", "30", "63", "64", "72", "73", "84", "85", "127", "128", "1500", "8800", "8801", "2^63"},
 			}
 			cov["loopback_udp_available"] = loopbackOK()
 			cov["management_step"] = "prologue and receive loop generated verbatim from the current Thread.Run() at check time (stage-2 build)"
